@@ -23,6 +23,7 @@ import sys
 import textwrap
 import time
 import types
+from contracts.meshkit import Opts as _Opts  # noqa: E402
 
 import numpy
 import z3
@@ -125,7 +126,7 @@ def curvature_output_guard(S):
     bad = []
     if ok:
         for v in sorted(set(computing)) + ["bxkappa", "something else"]:
-            me = types.SimpleNamespace(user_options=types.SimpleNamespace(curvature_type=v))
+            me = types.SimpleNamespace(user_options=_Opts(curvature_type=v))
             val = bool(eval(compile(ast.Expression(guard.test), "<guard>", "eval"), dict(M.__dict__), dict(self=me)))
             if val != (v in computing):
                 bad.append(dict(curvature_type=v, registered_for_output=val, computed=v in computing))
